@@ -452,7 +452,13 @@ def oracle_c10(h, rec):
           sig = classify_c10(actions, tid, tgt, kind)
           h._find("C10", sig, "%s[%d].%s = %r still refers to removed row %s[%d]" % (tid, row, cid, cell, tgt, t), rec)
         # RefList clause: other ids in order, None when nothing remains
-        if kind == "RefList" and isinstance(old, list) and any(t in R for t in old) and not raw \
+        # a row of THIS table that the bundle removed (and added again under the same id) is a new record: its cell
+        # is whatever the addition supplied, not the old list cleaned up
+        row_readded = any(ua[0] in ("RemoveRecord", "BulkRemoveRecord") and ua[1] == tid and
+                          row in (ua[2] if isinstance(ua[2], list) else [ua[2]]) for ua in actions)
+        if row_readded:
+          st["c10_rows_removed_and_readded_skipped"] = st.get("c10_rows_removed_and_readded_skipped", 0) + 1
+        if kind == "RefList" and isinstance(old, list) and any(t in R for t in old) and not raw and not row_readded \
             and not writes_column(actions, tid, cid) and (pure or (records_only and not cols[cid][3])):
           # ids removed by the bundle and handed out again to rows added later in it were removed too
           R2 = R | set(r for ua in actions if ua[0] in ("RemoveRecord", "BulkRemoveRecord") and ua[1] == tgt
